@@ -654,6 +654,7 @@ def run(model, tier):
     # ---- rule 4: a quantity a classification test allows to be zero is not divided by unconditionally ----
     from . import c20_division
     c20_division.sedov(model, res)
+    c20_division.guarded_elsewhere(model, res)
     return res
 
 
